@@ -15,13 +15,14 @@
       at least one vertex without isolated vertex — more generally every stabilizer target none of whose qubits is a product qubit —
       `solve` RETURNS (no assertion, no IndexError in any helper, in any round) and its final working tableau generates exactly the
       group of |0…0⟩ (`solver_complete`), hence `solve_correct`: the returned circuit prepares |G⟩ ⊗ |0…0⟩ under every outcome script,
-      and the verified validator accepts it (`validator_accepts_solver`).  Hypothesis: `InverseCircuitComplete` (C11).
+      and the verified validator accepts it (`validator_accepts_solver`).  Uses C11's `inverse_circuit_complete`; no hypothesis left.
   (4) Soundness without `hfinal` (`final_tableau_is_zero`, `solve_sound_unconditional`, `solve_returns_correct`): for every real
       commuting target, WHENEVER the model returns its final tableau generates |0…0⟩, so whatever it returns is correct.
-      Hypothesis: `InverseCircuitEndsInZero` (C11).
+      Uses C11's `inverseCircuit_isZero`; no hypothesis left.
   (5) The excluded targets, exactly: every graph with an isolated vertex raises IndexError (`isolated_vertex_raises`: finding D3 as a
       theorem about the model), the empty graph raises ValueError; `solve_returns_iff`.
-  Both hypotheses are theorems of C11 on branch deep-c11 (`STab.inverseCircuit_complete`, `STab.inverseCircuit_isZero`), discharged at merge.
+  The two facts about `inverse_circuit` these parts need are theorems of C11 (`STab.inverseCircuit_complete`, `STab.inverseCircuit_isZero`),
+  imported here as `inverse_circuit_complete` / `inverse_circuit_ends_in_zero`: every theorem of this file is unconditional.
 -/
 import GraphiqModel.Proofs.Check
 import GraphiqModel.Proofs.Circuit
@@ -32,6 +33,8 @@ import GraphiqModel.Proofs.SolverCompleteFinal
 import GraphiqModel.Proofs.SolverCompleteValidator
 import GraphiqModel.Proofs.SolverCompleteResources
 import GraphiqModel.Proofs.SolverCompleteWires
+import GraphiqModel.Proofs.InvTotal
+import GraphiqModel.Proofs.InvBridge
 namespace Graphiq.C02
 open Graphiq Graphiq.PRow Graphiq.Tab Graphiq.STab
 
@@ -169,16 +172,26 @@ theorem rref_keeps_group (t t' : STab) (brs : List String) (hg : t.Good) (hr : t
 
 /-! ## Completeness of the solver model (Li–Economou–Barnes) -/
 
-/-- completeness of `inverse_circuit` (property C11, proved on branch deep-c11 as `STab.inverseCircuit_complete`): on every valid
-    stabilizer tableau — real, commuting generators that are independent over GF(2) (no non-empty selection multiplies to the identity
-    string; on dependent generators `canonical_form` hits its final assertion, so `Good` alone would make the hypothesis false) — it
-    returns and reaches |0…0⟩.  The independence clause is, verbatim, C11's `STab.Indep`, so at merge the hypothesis is discharged by
-    `fun t hg hi => STab.inverseCircuit_complete t hg hi`.  It is the only hypothesis of the completeness theorems below. -/
+/-- completeness of `inverse_circuit` (property C11, `STab.inverseCircuit_complete`): on every valid stabilizer tableau — real, commuting
+    generators that are independent over GF(2) (no non-empty selection multiplies to the identity string; on dependent generators
+    `canonical_form` hits its final assertion) — it returns and reaches |0…0⟩.  Until C11 was merged this was a hypothesis of the
+    completeness theorems below; it is now the theorem `inverse_circuit_complete`. -/
 abbrev InverseCircuitComplete : Prop :=
   ∀ t : STab, t.Good →
     (∀ S : Nat → Bool, (∀ j, j < t.n → parityTo t.n (fun i => S i && (t.row i).x j) = false ∧
         parityTo t.n (fun i => S i && (t.row i).z j) = false) → ∀ i, i < t.n → S i = false) →
     ∃ t' c, t.inverseCircuit = .ok (t', c) ∧ t'.isZero = true
+
+/-- what `inverse_circuit` returns is the all-|0⟩ tableau (property C11, `STab.inverseCircuit_isZero`; after the repair of D42 the
+    synthesis cannot stop anywhere else) -/
+abbrev InverseCircuitEndsInZero : Prop :=
+  ∀ (t t' : STab) (c : List Gate), t.Good → t.inverseCircuit = .ok (t', c) → t'.isZero = true
+
+/-- C11: `inverse_circuit` is complete on valid stabilizer tableaux -/
+theorem inverse_circuit_complete : InverseCircuitComplete := fun t hg hi => STab.inverseCircuit_complete t hg hi
+
+/-- C11: whatever `inverse_circuit` returns is |0…0⟩ -/
+theorem inverse_circuit_ends_in_zero : InverseCircuitEndsInZero := fun t t' c hg h => STab.inverseCircuit_isZero t t' c hg h
 
 /-- **completeness, full statement**: for every simple graph on at least one vertex without isolated vertex the solver model returns,
     its final working tableau generates exactly the signed group of |0…0⟩ (`SpanEq`, what soundness consumes), and the executable test of
@@ -190,12 +203,12 @@ def solver_complete_statement : Prop :=
     ∃ s, Solver.solve (graphSTab np adj) = .ok s ∧ SpanEq s.t (STab.zero (np + s.ne)) ∧
       s.t.sameGroup (STab.zero (np + s.ne)) = true
 
-/-- **Completeness of the time-reversed solver** (every graph without isolated vertex, every size), under completeness of
-    `inverse_circuit`: no helper raises in any round, both assertions after the loop hold, the replay of the inverse circuit is
+/-- **Completeness of the time-reversed solver** (every graph without isolated vertex, every size; `inverse_circuit`'s completeness is C11's
+    theorem): no helper raises in any round, both assertions after the loop hold, the replay of the inverse circuit is
     accepted, and the final tableau generates the group of |0…0⟩ — semantically and as the executable flag -/
-theorem solver_complete (hinv : InverseCircuitComplete) : solver_complete_statement := by
+theorem solver_complete : solver_complete_statement := by
   intro np adj hnp hsym hirr hiso
-  obtain ⟨s, hs, hse⟩ := Solver.solve_complete_graph hinv np adj hnp hsym hirr hiso
+  obtain ⟨s, hs, hse⟩ := Solver.solve_complete_graph inverse_circuit_complete np adj hnp hsym hirr hiso
   have inv := Solver.solve_inv (graphSTab np adj) (Solver.graphSTab_good np adj hsym) s hs
   exact ⟨s, hs, hse, Solver.sameGroup_zero _ s.t inv.n_eq inv.good hse⟩
 
@@ -207,23 +220,23 @@ theorem final_flag_exact (n : Nat) (t : STab) (hn : t.n = n) (hg : t.Good) :
 
 /-- the same for **any stabilizer target**: real, commuting, independent generators on at least one qubit, no qubit of which is a
     product qubit (`NotProd`: no group element is supported on that qubit alone) -/
-theorem solver_complete_stabilizer (hinv : InverseCircuitComplete) (target : STab) (hg : target.Good) (hi : target.LinIndep)
+theorem solver_complete_stabilizer (target : STab) (hg : target.Good) (hi : target.LinIndep)
     (hn : 0 < target.n) (hnp : ∀ p, p < target.n → target.NotProd p) :
     ∃ s, Solver.solve target = .ok s ∧ SpanEq s.t (STab.zero (target.n + s.ne)) ∧
       s.t.sameGroup (STab.zero (target.n + s.ne)) = true := by
-  obtain ⟨s, hs, hse⟩ := Solver.solve_complete_stabilizer hinv target hg hi hn hnp
+  obtain ⟨s, hs, hse⟩ := Solver.solve_complete_stabilizer inverse_circuit_complete target hg hi hn hnp
   have inv := Solver.solve_inv target hg s hs
   exact ⟨s, hs, hse, Solver.sameGroup_zero _ s.t inv.n_eq inv.good hse⟩
 
 /-- **The solver is correct** (property C02 for the model, every graph without isolated vertex, every size, every outcome script):
     `solve` returns a state whose recorded circuit, run from all-|0⟩ by the tableau semantics under EVERY outcome script, ends with the
     photons exactly in |G⟩ (signs included) and every emitter in |0⟩ — `solve_sound` with its hypothesis discharged by `solver_complete` -/
-theorem solve_correct (hinv : InverseCircuitComplete) (np : Nat) (adj : Nat → Nat → Bool) (hnp : 0 < np)
+theorem solve_correct (np : Nat) (adj : Nat → Nat → Bool) (hnp : 0 < np)
     (hsym : ∀ i j, adj i j = adj j i) (hirr : ∀ i, adj i i = false) (hiso : ∀ i, i < np → ∃ j, j < np ∧ adj i j = true) :
     ∃ s, Solver.solve (graphSTab np adj) = .ok s ∧
       ∀ script : List Bool, ∃ rs, stabRun s.ne np .prob script s.cops = some rs ∧ rs.t.Valid ∧
         (STab.ofTab rs.t).n = np + s.ne ∧ ∀ p, (STab.ofTab rs.t).Spn p ↔ (targetSTab np s.ne adj).Spn p := by
-  obtain ⟨s, hs, hfinal, _⟩ := solver_complete hinv np adj hnp hsym hirr hiso
+  obtain ⟨s, hs, hfinal, _⟩ := solver_complete np adj hnp hsym hirr hiso
   refine ⟨s, hs, fun script => ?_⟩
   obtain ⟨rs, h1, h2, h3⟩ := Solver.solve_run (graphSTab np adj) (Solver.graphSTab_good np adj hsym) s hs hfinal script
   have h4 := h3.trans (Solver.withEmitters_graph np s.ne adj)
@@ -231,12 +244,12 @@ theorem solve_correct (hinv : InverseCircuitComplete) (np : Nat) (adj : Nat → 
 
 /-- **correctness for any stabilizer target** without product qubit: the returned circuit prepares exactly `target ⊗ |0…0⟩` (signed group)
     under every outcome script -/
-theorem solve_correct_stabilizer (hinv : InverseCircuitComplete) (target : STab) (hg : target.Good) (hi : target.LinIndep)
+theorem solve_correct_stabilizer (target : STab) (hg : target.Good) (hi : target.LinIndep)
     (hn : 0 < target.n) (hnp : ∀ p, p < target.n → target.NotProd p) :
     ∃ s, Solver.solve target = .ok s ∧
       ∀ script : List Bool, ∃ rs, stabRun s.ne target.n .prob script s.cops = some rs ∧ rs.t.Valid ∧
         (STab.ofTab rs.t).n = target.n + s.ne ∧ ∀ p, (STab.ofTab rs.t).Spn p ↔ (Solver.withEmitters target s.ne).Spn p := by
-  obtain ⟨s, hs, hfinal, _⟩ := solver_complete_stabilizer hinv target hg hi hn hnp
+  obtain ⟨s, hs, hfinal, _⟩ := solver_complete_stabilizer target hg hi hn hnp
   refine ⟨s, hs, fun script => ?_⟩
   obtain ⟨rs, h1, h2, h3⟩ := Solver.solve_run target hg s hs hfinal script
   exact ⟨rs, h1, h2, h3.n_eq.trans (Solver.withEmitters_n target s.ne), fun p => ⟨h3.sub p, h3.sup p⟩⟩
@@ -360,21 +373,21 @@ example : (match stabRun 1 1 .prob [true] [.gate1 .H ⟨.e, 0⟩, .cnot ⟨.e, 0
     measurement (`MeasurementCNOTandReset`) per descent `h(p) < h(p-1)` of the target's height function (`Solver.descents`), exactly one
     emission per photon, and `max h` emitters.  (The test `height_list[j] < height_list[j-1]` of round `j` is evaluated on the working
     tableau, but the cuts left of the current photon are never touched, so it sees the target's heights.) -/
-theorem measurement_count_stabilizer (hinv : InverseCircuitComplete) (target : STab) (hg : target.Good) (hi : target.LinIndep)
+theorem measurement_count_stabilizer (target : STab) (hg : target.Good) (hi : target.LinIndep)
     (hn : 0 < target.n) (hnp : ∀ p, p < target.n → target.NotProd p) :
     ∃ s hl, Solver.solve target = .ok s ∧ target.heightFuncList = .ok hl ∧
       Solver.mcrCount s.circ = Solver.descents hl target.n ∧
       (∀ p, Solver.emitCount p s.circ = if p < target.n then 1 else 0) ∧ Solver.determineNEmitters target = .ok s.ne := by
-  obtain ⟨s, hl, hs, hh, hc⟩ := Solver.solve_mcr_count hinv target hg hi hn hnp
+  obtain ⟨s, hl, hs, hh, hc⟩ := Solver.solve_mcr_count inverse_circuit_complete target hg hi hn hnp
   exact ⟨s, hl, hs, hh, hc, (solve_structure target s hs).2.1, (solve_structure target s hs).2.2⟩
 
 /-- the same on graphs (at least one vertex, no isolated vertex) -/
-theorem measurement_count (hinv : InverseCircuitComplete) (np : Nat) (adj : Nat → Nat → Bool) (hnp : 0 < np)
+theorem measurement_count (np : Nat) (adj : Nat → Nat → Bool) (hnp : 0 < np)
     (hsym : ∀ i j, adj i j = adj j i) (hirr : ∀ i, adj i i = false) (hiso : ∀ i, i < np → ∃ j, j < np ∧ adj i j = true) :
     ∃ s hl, Solver.solve (graphSTab np adj) = .ok s ∧ (graphSTab np adj).heightFuncList = .ok hl ∧
       Solver.mcrCount s.circ = Solver.descents hl np ∧
       (∀ p, Solver.emitCount p s.circ = if p < np then 1 else 0) ∧ Solver.determineNEmitters (graphSTab np adj) = .ok s.ne :=
-  measurement_count_stabilizer hinv (graphSTab np adj) (Solver.graphSTab_good np adj hsym) (graph_indep np adj) hnp
+  measurement_count_stabilizer (graphSTab np adj) (Solver.graphSTab_good np adj hsym) (graph_indep np adj) hnp
     (fun p hp => Solver.graph_notProd np adj hirr p hp (hiso p hp))
 
 /-- the linear cluster 0–1–2 has heights `1, 1, 0`: one descent, and the model's circuit has one measure-and-reset (`solveOk 3 lin3adj 1 1`
@@ -391,17 +404,17 @@ example : (graphSTab 4 sq4adj).heightFuncList = .ok [1, 2, 1, 0] ∧ Solver.desc
 /-- **emission structure** (the constraint of C04 for this solver): in the returned circuit the first operation in time order on every
     photon wire is the emission CNOT from one of the circuit's emitters — no gate, no measure-and-reset touches a photon before it is
     emitted (`Solver.firstOn np p c` = first operation of the time-ordered list `c` that touches global qubit `p`) -/
-theorem emission_first_stabilizer (hinv : InverseCircuitComplete) (target : STab) (hg : target.Good) (hi : target.LinIndep)
+theorem emission_first_stabilizer (target : STab) (hg : target.Good) (hi : target.LinIndep)
     (hn : 0 < target.n) (hnp : ∀ p, p < target.n → target.NotProd p) :
     ∃ s, Solver.solve target = .ok s ∧
       ∀ p, p < target.n → ∃ e, e < s.ne ∧ Solver.firstOn target.n p s.circ = some (.emit e p) :=
-  Solver.solve_emission_first hinv target hg hi hn hnp
+  Solver.solve_emission_first inverse_circuit_complete target hg hi hn hnp
 
-theorem emission_first (hinv : InverseCircuitComplete) (np : Nat) (adj : Nat → Nat → Bool) (hnp : 0 < np)
+theorem emission_first (np : Nat) (adj : Nat → Nat → Bool) (hnp : 0 < np)
     (hsym : ∀ i j, adj i j = adj j i) (hirr : ∀ i, adj i i = false) (hiso : ∀ i, i < np → ∃ j, j < np ∧ adj i j = true) :
     ∃ s, Solver.solve (graphSTab np adj) = .ok s ∧
       ∀ p, p < np → ∃ e, e < s.ne ∧ Solver.firstOn np p s.circ = some (.emit e p) :=
-  emission_first_stabilizer hinv (graphSTab np adj) (Solver.graphSTab_good np adj hsym) (graph_indep np adj) hnp
+  emission_first_stabilizer (graphSTab np adj) (Solver.graphSTab_good np adj hsym) (graph_indep np adj) hnp
     (fun p hp => Solver.graph_notProd np adj hirr p hp (hiso p hp))
 
 /-- **every operation of the recorded circuit acts on registers of the circuit** (any real commuting target, whenever the model returns):
@@ -429,7 +442,7 @@ theorem empty_graph_raises (adj : Nat → Nat → Bool) : Solver.solve (graphSTa
   Solver.solve_empty_raises adj
 
 /-- **exact characterisation**: on simple graphs the solver model returns iff the graph is non-empty and has no isolated vertex -/
-theorem solve_returns_iff (hinv : InverseCircuitComplete) (np : Nat) (adj : Nat → Nat → Bool) (hsym : ∀ i j, adj i j = adj j i)
+theorem solve_returns_iff (np : Nat) (adj : Nat → Nat → Bool) (hsym : ∀ i j, adj i j = adj j i)
     (hirr : ∀ i, adj i i = false) :
     (∃ s, Solver.solve (graphSTab np adj) = .ok s) ↔ (0 < np ∧ ∀ i, i < np → ∃ j, j < np ∧ adj i j = true) := by
   constructor
@@ -449,44 +462,38 @@ theorem solve_returns_iff (hinv : InverseCircuitComplete) (np : Nat) (adj : Nat 
         · exact absurd ⟨j, hj, h⟩ hno
       rw [isolated_vertex_raises np adj hsym hirr ⟨i, hi, hiso⟩] at hs; cases hs
   · rintro ⟨hnp, hiso⟩
-    obtain ⟨s, hs, _⟩ := solver_complete hinv np adj hnp hsym hirr hiso
+    obtain ⟨s, hs, _⟩ := solver_complete np adj hnp hsym hirr hiso
     exact ⟨s, hs⟩
 
 /-! ### Soundness without `hfinal`: whatever the solver model returns is correct -/
 
-/-- what `inverse_circuit` returns is the all-|0⟩ tableau (property C11, proved on branch deep-c11 as `STab.inverseCircuit_isZero`; after
-    the repair of D42 the synthesis cannot stop anywhere else).  Hypothesis of the three theorems below; discharged at merge by
-    `fun t t' c hg h => STab.inverseCircuit_isZero t t' c hg h`. -/
-abbrev InverseCircuitEndsInZero : Prop :=
-  ∀ (t t' : STab) (c : List Gate), t.Good → t.inverseCircuit = .ok (t', c) → t'.isZero = true
-
 /-- **`hfinal` holds whenever the solver model returns** (every real commuting target, no assumption on its shape): the final working
     tableau generates exactly the signed group of |0…0⟩, and the driver's flag `zero=1` is set -/
-theorem final_tableau_is_zero (hzero : InverseCircuitEndsInZero) (target : STab) (hg : target.Good) (s : Solver.St)
+theorem final_tableau_is_zero (target : STab) (hg : target.Good) (s : Solver.St)
     (h : Solver.solve target = .ok s) :
     SpanEq s.t (STab.zero (target.n + s.ne)) ∧ s.t.sameGroup (STab.zero (target.n + s.ne)) = true := by
-  have hse := Solver.solve_final_zero hzero target hg s h
+  have hse := Solver.solve_final_zero inverse_circuit_ends_in_zero target hg s h
   have inv := Solver.solve_inv target hg s h
   exact ⟨hse, Solver.sameGroup_zero _ s.t inv.n_eq inv.good hse⟩
 
 /-- **Soundness of the solver model without `hfinal`, any stabilizer target**: whenever `solve target` returns, the recorded circuit,
     run from all-|0⟩ under EVERY outcome script, succeeds, stays valid and ends in exactly the signed group of `target ⊗ |0…0⟩` -/
-theorem solve_sound_unconditional (hzero : InverseCircuitEndsInZero) (target : STab) (hg : target.Good) (s : Solver.St)
+theorem solve_sound_unconditional (target : STab) (hg : target.Good) (s : Solver.St)
     (h : Solver.solve target = .ok s) (script : List Bool) :
     ∃ rs, stabRun s.ne target.n .prob script s.cops = some rs ∧ rs.t.Valid ∧
       (STab.ofTab rs.t).n = target.n + s.ne ∧
       ∀ p, (STab.ofTab rs.t).Spn p ↔ (Solver.withEmitters target s.ne).Spn p :=
-  solve_sound_stabilizer target hg s h (final_tableau_is_zero hzero target hg s h).2 script
+  solve_sound_stabilizer target hg s h (final_tableau_is_zero target hg s h).2 script
 
 /-- **whatever the solver model returns on a graph is correct** (every symmetric adjacency, every size, every outcome script): if
     `solve` returns, the recorded circuit prepares |G⟩ ⊗ |0…0⟩ exactly.  This is `solve_sound` with its hypothesis `hfinal` removed; it is
     the form in which the alternate-target solver (C10 `solve_result_correct`, hypothesis `hsolver`) consumes the time-reversed solver. -/
-theorem solve_returns_correct (hzero : InverseCircuitEndsInZero) (np : Nat) (adj : Nat → Nat → Bool)
+theorem solve_returns_correct (np : Nat) (adj : Nat → Nat → Bool)
     (hsym : ∀ i j, adj i j = adj j i) (s : Solver.St) (h : Solver.solve (graphSTab np adj) = .ok s) :
     ∀ script : List Bool, ∃ rs, stabRun s.ne np .prob script s.cops = some rs ∧ rs.t.Valid ∧
       (STab.ofTab rs.t).n = np + s.ne ∧ ∀ p, (STab.ofTab rs.t).Spn p ↔ (targetSTab np s.ne adj).Spn p :=
   solve_sound np adj hsym s h
-    (final_tableau_is_zero hzero (graphSTab np adj) (Solver.graphSTab_good np adj hsym) s h).2
+    (final_tableau_is_zero (graphSTab np adj) (Solver.graphSTab_good np adj hsym) s h).2
 
 /-- the time-reversed solver model as a function from graphs to circuits (number of emitters, operation list in time order) — the shape
     in which C10 (`Alt.Parts.solver`) and `solver_correct_statement` use a solver -/
@@ -497,7 +504,7 @@ def modelSolver (np : Nat) (adj : Nat → Nat → Bool) : Option (Nat × List CO
 
 /-- **every circuit the model solver returns generates its target** under every outcome script (the statement `Alt.Generates` of C10,
     for scripts of any length) -/
-theorem model_solver_generates (hzero : InverseCircuitEndsInZero) (np : Nat) (adj : Nat → Nat → Bool)
+theorem model_solver_generates (np : Nat) (adj : Nat → Nat → Bool)
     (hsym : ∀ i j, adj i j = adj j i) (ne : Nat) (ops : List COp) (h : modelSolver np adj = some (ne, ops)) :
     ∀ script : List Bool, ∃ rs, stabRun ne np .prob script ops = some rs ∧ SpanEq (STab.ofTab rs.t) (targetSTab np ne adj) := by
   intro script
@@ -508,23 +515,23 @@ theorem model_solver_generates (hzero : InverseCircuitEndsInZero) (np : Nat) (ad
     rw [hs] at h
     simp only [Option.some.injEq, Prod.mk.injEq] at h
     obtain ⟨rfl, rfl⟩ := h
-    obtain ⟨rs, h1, _, h3, h4⟩ := solve_returns_correct hzero np adj hsym s hs script
+    obtain ⟨rs, h1, _, h3, h4⟩ := solve_returns_correct np adj hsym s hs script
     exact ⟨rs, h1, h3, fun p hp => (h4 p).1 hp, fun p hp => (h4 p).2 hp⟩
 
 /-- **the verified validator accepts the circuit of the model solver** on every graph on ≥ 1 vertex without isolated vertex (the corrected
     form of `solver_correct_statement`): the solver returns and `checkGenerates` — every outcome script run, final group compared with the
     target through canonical forms — evaluates to `true` (completeness of `sameGroup` on valid tableaux, via C05's `canon_unique`) -/
-theorem validator_accepts_solver (hinv : InverseCircuitComplete) (np : Nat) (adj : Nat → Nat → Bool) (hnp : 0 < np)
+theorem validator_accepts_solver (np : Nat) (adj : Nat → Nat → Bool) (hnp : 0 < np)
     (hsym : ∀ i j, adj i j = adj j i) (hirr : ∀ i, adj i i = false) (hiso : ∀ i, i < np → ∃ j, j < np ∧ adj i j = true) :
     ∃ ne ops, modelSolver np adj = some (ne, ops) ∧ checkGenerates ne np ops adj = true := by
-  obtain ⟨s, hs, hc⟩ := Solver.checkGenerates_solver hinv np adj hnp hsym hirr hiso
+  obtain ⟨s, hs, hc⟩ := Solver.checkGenerates_solver inverse_circuit_complete np adj hnp hsym hirr hiso
   exact ⟨s.ne, s.cops, by unfold modelSolver; rw [hs], hc⟩
 
 /-- and the model solver returns on every graph on ≥ 1 vertex without isolated vertex -/
-theorem model_solver_returns (hinv : InverseCircuitComplete) (np : Nat) (adj : Nat → Nat → Bool) (hnp : 0 < np)
+theorem model_solver_returns (np : Nat) (adj : Nat → Nat → Bool) (hnp : 0 < np)
     (hsym : ∀ i j, adj i j = adj j i) (hirr : ∀ i, adj i i = false) (hiso : ∀ i, i < np → ∃ j, j < np ∧ adj i j = true) :
     ∃ ne ops, modelSolver np adj = some (ne, ops) := by
-  obtain ⟨s, hs, _⟩ := solver_complete hinv np adj hnp hsym hirr hiso
+  obtain ⟨s, hs, _⟩ := solver_complete np adj hnp hsym hirr hiso
   exact ⟨s.ne, s.cops, by unfold modelSolver; rw [hs]⟩
 
 /-- the smallest instances of D3 evaluate as the theorem says: K1, 2·K1, K2 + K1 -/
@@ -595,10 +602,10 @@ theorem ghz3_notProd (p : Nat) (hp : p < ghz3.n) : ghz3.NotProd p := by
     rw [a1.1, a1.2, a2.1, a2.2]
     cases S 0 <;> cases S 1 <;> cases S 2 <;> simp
 
-/-- all hypotheses of `solver_complete_stabilizer` (other than `hinv`) are met by the GHZ state, which is not a graph-state tableau -/
-example (hinv : InverseCircuitComplete) : ∃ s, Solver.solve ghz3 = .ok s ∧ SpanEq s.t (STab.zero (ghz3.n + s.ne)) ∧
+/-- all hypotheses of `solver_complete_stabilizer` are met by the GHZ state, which is not a graph-state tableau -/
+example : ∃ s, Solver.solve ghz3 = .ok s ∧ SpanEq s.t (STab.zero (ghz3.n + s.ne)) ∧
     s.t.sameGroup (STab.zero (ghz3.n + s.ne)) = true :=
-  solver_complete_stabilizer hinv ghz3 (isGood_good ghz3 (by decide)) ghz3_indep (by decide) ghz3_notProd
+  solver_complete_stabilizer ghz3 (isGood_good ghz3 (by decide)) ghz3_indep (by decide) ghz3_notProd
 
 /-- the loop invariant is met at the start of the loop for the 3-photon linear cluster with its one emitter (hypothesis of
     `round_returns` / `photon_loop_returns`) -/
